@@ -108,6 +108,8 @@ FAMILIES = [
     ("counters", 1, 1, 1, 2, [(0, None)], [["i:0", "d:1", "pa:0:5", "ld:0"], ["d:0", "pi:1", "ps:0:3", "oa:1:-2"]]),
     ("atomic-max", 1, 1, 1, 2, [(0, None)], [["mx:0:5", "ml:0", "mx:0:2", "mx:1:7"], ["mx:0:9", "mx:0:3", "ml:0", "mx:1:4"]]),
     ("photons", 4, 1, 1, 1, [(0, None)], [["gs", "ap:0:150", "ap:0:100", "fb:1"], ["gs", "ap:0:200", "fb:0"]]),
+    # one slot, handed from one owner to the next: the new owner must find it empty and keep what it stores
+    ("buffer-reuse", 1, 1, 1, 1, [(0, None)], [["gs", "ap:0:50", "fb:0", "gs", "ap:0:30", "fb:0"], ["g", "ap:0:70", "ld:0", "fb:0"]]),
 ]
 
 
@@ -232,6 +234,47 @@ def adversarial_lines(rng, count):
     return ops
 
 
+def buffer_reuse_lines(rng, count):
+    """deterministic schedules on a pool of 1-2 buffers that are filled, released and handed to the next
+    requester: with the yield point of patches/hook_c08_memoryspace.diff a switch can fall between the wipe
+    and the release of free_buffer (never enough packets to fill a buffer: add_photons needs no new one)"""
+    ops = []
+    for _ in range(count):
+        size = rng.choice([1, 1, 2])
+        n = rng.choice([2, 2, 3])
+        progs = []
+        for t in range(n):
+            p = []
+            for _ in range(rng.randint(1, 3)):
+                p.append(rng.choice(["g", "gs", "gs"]))
+                for _ in range(rng.randint(1, 2)):
+                    p.append("ap:0:%d" % rng.randint(1, 40))
+                if rng.random() < 0.3:
+                    p.append("ld:0")
+                p.append("fb:0")
+            progs.append(p)
+        s = []
+        while len(s) < 70:
+            s += [rng.randrange(n)] * rng.choice([1, 2, 5, 6, 7, 8, 9])
+        ops.append(line(size, 1, 1, 1, [(0, None)], progs, "X", "".join(map(str, s[:70]))))
+    return ops
+
+
+def buffer_hammer_lines(rng, count):
+    """real concurrency, oversubscribed (more threads than cores) on an almost-full MemorySpace: every
+    owner checks that the buffer it is handed is empty, fills it with a pattern (owner id, sequence) and
+    checks before free_buffer that its pattern is intact (harness oracles; nothing to compare with the model)"""
+    ops = []
+    ncpu = os.cpu_count() or 8
+    for k in range(count):
+        nth = max(24, 2 * ncpu) if k % 2 == 0 else max(16, ncpu + 8)
+        size = nth + 2 if k % 3 else nth - 3
+        body = rng.choice([["gs", "fb:0"], ["gs", "ap:0:7", "fb:0"], ["gs", "ld:0", "fb:0"], ["gs", "fb:0", "gs", "ap:0:3", "i:0", "fb:0"]])
+        progs = [body * 4 for _ in range(nth)]
+        ops.append(line(size, 1, 1, 1, [(0, None)], progs, "G", "%dx%d" % (rng.randrange(10 ** 6), 400)))
+    return ops
+
+
 def free_lines(rng, count):
     """real concurrency (no baton): only schedule-independent facts are printed"""
     ops = []
@@ -289,6 +332,16 @@ def inner_max_yields():
     return 'CMAC_VERIF_YIELD("max_cas")' in txt
 
 
+def memoryspace_yield():
+    """is the yield point between wipe and release of MemorySpace::free_buffer present
+    (patches/hook_c08_memoryspace.diff)?"""
+    try:
+        txt = open(os.path.join(vlib.REPO, "src", "MemorySpace.hpp")).read()
+    except OSError:
+        return False
+    return 'CMAC_VERIF_YIELD("free_buffer")' in txt
+
+
 EXPECTED_TAGS_INNER = ["getMaxCas>getTotal", "getMaxCas>getMax", "cMaxCas>idle", "cMaxCas>cMax"]
 
 EXPECTED_TAGS = [
@@ -331,7 +384,14 @@ def run(ctx):
         return
     rng = ctx.rng
     inner = inner_max_yields()
+    ms_hook = memoryspace_yield()
     ctx.cov["atomic_max_inner_yields"] = inner
+    ctx.cov["memoryspace_free_buffer_yield"] = ms_hook
+    if not ms_hook:
+        ctx.assumptions.append("MemorySpace::free_buffer has no yield point between its two statements in this tree (patches/hook_c08_memoryspace.diff "
+                               "not applied): schedule replay switches threads only at atomic operations, so the order wipe-then-release is tied to the "
+                               "code by the theorems (owner_writes_only, handed_out_buffer_is_empty) and, on the implementation, by the oversubscribed "
+                               "buffer-hammer lines (content oracles) only")
     if not inner:
         ctx.assumptions.append("AtomicValue::max has no yield inside its loop in this tree (hook patch seeded/_hook_c08.diff not applied): "
                                "schedule replay cannot preempt between its load and its compare-exchange; the interleavings inside max are covered "
@@ -352,6 +412,8 @@ def run(ctx):
     streams.append(("solo-pops", solo_lines(rng, ctx.budget(300, 8000))))
     streams.append(("hydro-counter-protocol", hydro_lines(rng, ctx.budget(300, 8000))))
     streams.append(("free-running", free_lines(rng, ctx.budget(40, 500))))
+    streams.append(("buffer-reuse", buffer_reuse_lines(rng, ctx.budget(300, 8000))))
+    streams.append(("buffer-hammer", buffer_hammer_lines(rng, ctx.budget(12, 60))))
     ctx.cov["rule"] = ("schedule replay of the real containers (hook H1, baton scheduler, real std::threads): "
                        "every schedule prefix of length %d for %d two-thread program pairs (completed round-robin), "
                        "seeded random bursty/starving schedules for 2-4 threads over random programs/pool sizes 1-3/task tables, "
@@ -365,12 +427,13 @@ def run(ctx):
     total, same = 0, 0
     nontriv_tags = ("getCas>getInc", "getCheck>idle", "lockSpin>lockSpin", "tlBack", "tl0>popScan", "tl0>idle", "tl1>tlBack",
                     "addLock>addLock", "popLock>popLock", "tryPopLock>idle", "lfCas>lfCas", "lockTry>idle")
-    expected = EXPECTED_TAGS + (EXPECTED_TAGS_INNER if inner else [])
+    expected = EXPECTED_TAGS + (EXPECTED_TAGS_INNER if inner else []) + (["freeYield>freeUnlock"] if ms_hook else [])
     for name, ops in streams:
         if not ops:
             continue
-        if inner:
-            ops = [o.replace(" | X ", " | XI ") for o in ops]
+        xmode = "X" + ("I" if inner else "") + ("M" if ms_hook else "")
+        if xmode != "X":
+            ops = [o.replace(" | X ", " | %s " % xmode) for o in ops]
         nmis, impl, model, orc = ctx.correspond(name, h, drv, ops, cmp=cmp,
                                                 oracle_key=lambda what, grp: "c08:" + what.split("(")[0].split()[0])
         total += len(ops)
@@ -416,7 +479,8 @@ MANIFEST = dict(
           "Model/AtomicsSpec.lean; +acquire_guard, acquire_at_most_once), failed_pop_changes_nothing (stutter form + memory form), and the hydro "
           "worker-loop counter protocol hydro_counter / hydro_counter_zero (number_of_tasks is never 0 while a task is queued or running, once "
           "the initial loop is over). AtomicValue::max at the level of its load / compare-exchange / reload steps: max_monotone (never decreases, from "
-          "any state), max_is_maximum (+max_general with pending calls). No theorem is left _partial. Model tied to the "
+          "any state), max_is_maximum (+max_general with pending calls). MemorySpace::free_buffer as wipe-then-release: owner_writes_only (while a thread "
+          "holds slot i no other thread writes buffer i) and handed_out_buffer_is_empty. No theorem is left _partial. Model tied to the "
           "real containers by deterministic schedule replay of real std::threads through hook H1: returned values in schedule order and the "
           "final shared state identical, plus oracles on the implementation."),
     note=("Trusted: Lean kernel + 3 axioms; sequential consistency of C++11 seq_cst atomics assumed, not derived; non-atomic reads of "
@@ -430,7 +494,11 @@ MANIFEST = dict(
           "(lock set = footprint stays C07's/C01's assumption); hydro_counter assumes tasks enter queues only via the initial loop and child release. "
           "Hook H1 fires once at the entry of AtomicValue::max: until seeded/_hook_c08.diff (add-only yields before its compare-exchange and reload) is "
           "committed, schedule replay cannot preempt inside max and its inner interleavings are tied to the code only by free-running hammer lines "
-          "(oracles: value >= own argument after the call, per-thread reads never decrease, final = maximum); the check detects the patch and then replays them."),
+          "(oracles: value >= own argument after the call, per-thread reads never decrease, final = maximum); the check detects the patch and then replays them. "
+          "Likewise the order wipe-then-release inside MemorySpace::free_buffer: plain code after the last atomic operation cannot be separated by the "
+          "baton scheduler; until patches/hook_c08_memoryspace.diff (one guarded yield between the two statements) is committed it is tied to the code by "
+          "the oversubscribed buffer-hammer lines (owners stamp their buffers, check emptiness on hand-out and their stamp before release); with the "
+          "patch the deterministic buffer-reuse schedules place a switch there."),
     technique=("Lean 4 proof: sum-over-threads invariants (frame lemma + local step lemma per program counter + omega, lifted by List.foldl "
                "induction), ownership-frame arguments from slot/lock uniqueness, solo-run inductions for progress + deterministic schedule "
                "replay of real std::threads through a yield hook (baton scheduler), exhaustive schedule prefixes for two threads x short programs"))
